@@ -108,7 +108,9 @@ def check(case):
                 d = numpy.diff(seq, axis=1)
                 if prev_last is not None:
                     j = numpy.abs(prev_last - seq[:, 0]).max()
-                    if j > 1e-9:
+                    # the two regions accumulate the same integral in different order: round-off
+                    # relative to the size of zShift (hundreds of radians at small R)
+                    if j > 1e-9 * (1.0 + float(numpy.abs(seq).max())):
                         fail("C06/zShift-discontinuous-at-join", {"region": reg["name"], "max_jump": float(j)})
                 prev_last = seq[:, -1]
                 dirs = A["dir"]
